@@ -31,21 +31,53 @@ Proof. exact read_back. Qed.
 Print Assumptions C11_read_back.
 
 (** Shape and document level: one node shape per shape, in order, with the
-    IRI the ShExC label denotes, [sh:targetClass] = the shape's class, and one
-    property shape per statement, in order. *)
+    IRI the ShExC label denotes, [sh:targetClass] = the IRI [_add_target_class]
+    makes of the shape's class key ([retarget]: [target_class_obj] of the key --
+    the key itself, or, once the method removes the corners a shape-map label
+    is kept in (flag [c_shacl_target_strips_corners], finding C04-F2), the key
+    without them), and one property shape per statement, in order. *)
 Theorem C11_shapes_agree : forall ns tau shapes,
   forallb (C11_dom_shape ns tau) shapes = true ->
   exists cs d, shex_doc_view ns tau shapes = VOk cs /\ shacl_doc tau shapes = VOk d /\
-               same_doc d (enc_doc cs).
+               same_doc d (enc_doc (map retarget cs)).
 Proof. exact docs_agree. Qed.
 Print Assumptions C11_shapes_agree.
 
 Theorem C11_shape_agree : forall ns tau sh, C11_dom_shape ns tau sh = true ->
   exists cs d, shex_shape_view ns tau sh = VOk cs /\ shacl_shape tau sh = VOk d /\
-               same_nshape d (enc_shape cs) /\
+               same_nshape d (enc_shape (retarget cs)) /\
                cs_class cs = sh_class sh /\ List.length (cs_constraints cs) = List.length (sh_stmts sh).
 Proof. exact shapes_agree. Qed.
 Print Assumptions C11_shape_agree.
+
+(** [sh:targetClass] = the class (the class key itself) for every shape whose key is not written in
+    corners -- every shape of a class-based extraction (Props/C05.v: [C05_run_classes_plain]) -- and
+    for every shape when [_add_target_class] does not touch the key *)
+Theorem C11_shapes_agree_class : forall ns tau shapes,
+  forallb (C11_dom_shape ns tau) shapes = true ->
+  (forall sh, In sh shapes -> target_class_obj (sh_class sh) = sh_class sh) ->
+  exists cs d, shex_doc_view ns tau shapes = VOk cs /\ shacl_doc tau shapes = VOk d /\
+               same_doc d (enc_doc cs).
+Proof. exact docs_agree_class. Qed.
+Print Assumptions C11_shapes_agree_class.
+
+Theorem C11_shape_agree_class : forall ns tau sh, C11_dom_shape ns tau sh = true ->
+  target_class_obj (sh_class sh) = sh_class sh ->
+  exists cs d, shex_shape_view ns tau sh = VOk cs /\ shacl_shape tau sh = VOk d /\
+               same_nshape d (enc_shape cs) /\
+               cs_class cs = sh_class sh /\ List.length (cs_constraints cs) = List.length (sh_stmts sh).
+Proof. exact shapes_agree_class. Qed.
+Print Assumptions C11_shape_agree_class.
+
+Theorem C11_target_class_key : forall c,
+  (cornered c = false -> target_class_obj c = c) /\
+  (c_shacl_target_strips_corners = false -> target_class_obj c = c) /\
+  (c_shacl_target_strips_corners = true -> forall i, target_class_obj (Str "<" ++ i ++ Str ">") = i).
+Proof.
+  intros c. split; [apply target_class_obj_plain|]. split; [apply target_class_obj_old|].
+  intros Hf i. apply target_class_obj_new. exact Hf.
+Qed.
+Print Assumptions C11_target_class_key.
 
 (** The cardinality table holds for every cardinality the extraction can
     produce, whatever the statement kind (all k >= 1):
